@@ -18,6 +18,7 @@ struct FaceObj {
     u64 gets_at_ctor = 0;
     bool alive = false;
     bool pristine_gids = false;    // gid clause of C03 applies
+    bool has_just_passes = true;   // served Silf has justification passes (they may add or remove slots during gr_seg_justify)
     bool has_just = true;          // served Silf has justification passes / levels / line-end contextuals (C19 gid clause off)
     unsigned nfeat = 0;
 };
@@ -77,6 +78,7 @@ struct World {
     OpResult op_label(const Op &op);
     OpResult op_fval(const Op &op);
     void check_lines(SegObj &s, const char *after);
+    void recheck_counts(SegObj &s, const char *after);
     void after_call_preload_check(FaceObj &f, const char *what);
 };
 
